@@ -75,6 +75,14 @@ impl<R: Read + Seek> ChunkReader<R> {
         Ok(self.chunk_size.saturating_sub(pos))
     }
 
+    /// Capacity to reserve before reading `count` elements of `elem_size` bytes each
+    /// from the current position: a count the rest of the chunk cannot hold is cut
+    /// down to what fits, reading it fails at the end of the chunk anyway
+    pub(crate) fn capacity_for(&mut self, count: u32, elem_size: u32) -> Result<usize> {
+        let fit = self.remaining()? / elem_size.max(1);
+        Ok(count.min(fit) as usize)
+    }
+
     /// Check if we've reached the end of the chunk
     pub fn is_at_end(&mut self) -> Result<bool> {
         Ok(self.remaining()? == 0)
